@@ -1056,7 +1056,12 @@ func c15Muts() []c15Mut {
 		{"garbage-two-parts", post(func(s *c15Scn, p []string) string { return p[0] + "." + p[1] })},
 		{"garbage-four-parts", post(func(s *c15Scn, p []string) string { return p[0] + "." + p[1] + "." + p[2] + "." + p[2] })},
 		{"garbage-padded-base64", post(func(s *c15Scn, p []string) string { return p[0] + "=." + p[1] + "." + p[2] })},
-		{"garbage-std-base64-chars", post(func(s *c15Scn, p []string) string { return p[0] + "." + p[1] + "." + "+/" + p[2][2:] })},
+		{"garbage-std-base64-chars", post(func(s *c15Scn, p []string) string { 
+			if len(p[2]) < 2 {
+				return p[0] + "." + p[1] + ".+/"
+			}
+			return p[0] + "." + p[1] + "." + "+/" + p[2][2:]
+		})},
 		{"garbage-dots", raw("..")},
 		{"garbage-text", raw("not a token")},
 		{"garbage-abc", raw("a.b.c")},
@@ -1189,6 +1194,16 @@ func c15History(rng *rand.Rand, ring *c15Ring, nops int) *c15In {
 				op.Op = "scrape"
 			}
 			in.Ops = append(in.Ops, op)
+			// the verdict is about (token, announced infohash) TOGETHER, every time: present the same token string
+			// again for the same infohash, then for another one, then once more for its own
+			if rng.Intn(3) == 0 {
+				var other [20]byte
+				rng.Read(other[:])
+				t2 := t
+				in.Ops = append(in.Ops, c15Op{Op: "announce", IH: hx(ih[:]), JWT: &t2, Note: "same token again"},
+					c15Op{Op: "announce", IH: hx(other[:]), JWT: &t2, Note: "same token, other infohash"},
+					c15Op{Op: "announce", IH: hx(ih[:]), JWT: &t2, Note: "same token, its own infohash again"})
+			}
 		}
 	}
 	return in
